@@ -417,6 +417,40 @@ def runC14 : P Verdict := do
          cls := s!"n{if cep.length ≤ 2 then "2" else if cep.length ≤ 9 then "<=9" else ">9"}:b{if c.beta == 0.0 then "0" else if c.beta < 0.2 then "lo" else "hi"}:a{if c.alpha == 0.0 then "0" else "x"}",
          bitsOk := bo, bitsAll := ba }
 
+/-- `C14m`: mixed voicing. The post-filter acts on every frame: with `beta = 0` or at most two coefficients nothing
+    changes at all; otherwise every noise-excited frame after the first must differ from the `beta = 0` run (its
+    coefficients of order ≥ 2 are scaled by `1+beta`, and the noise is never zero). -/
+def runC14m : P Verdict := do
+  let c ← parseCase
+  let w ← parseWave
+  expect "aux"
+  let w0 ← parseWave
+  let m := runModel c
+  let (corr, bo, ba) := diffWave 1e-6 m w
+  let ncoef := (c.frames.headD (0.0, [], [])).2.1.length
+  let orc := match w, w0 with
+    | .ok ys, .ok y0s => Id.run do
+      if ys.length != y0s.length || ys.length != c.frames.length * c.fperiod then return some "wrong number of samples"
+      if c.beta == 0.0 || ncoef ≤ 2 then
+        if !((ys.zip y0s).all fun (a, b) => bitsEq a b) then
+          return some s!"postfilter with beta={c.beta} on {ncoef} coefficients changed the output (must be a no-op)"
+        return none
+      let y := ys.toArray; let y0 := y0s.toArray
+      let mut k := 0
+      for (lf0, cep, _) in c.frames do
+        let higher := (cep.drop 2).any fun x => x != 0.0
+        if k ≥ 1 && lf0 == (Consts.nodata : Float) && higher then
+          let same := (List.range c.fperiod).all fun i => bitsEq (y.getD (k * c.fperiod + i) 0.0) (y0.getD (k * c.fperiod + i) 0.0)
+          if same then
+            return some s!"unvoiced frame {k}: output with beta={c.beta} is bit-identical to the output with beta=0 — the post-filter was not applied to this frame"
+        k := k + 1
+      return none
+    | _, _ => some "panicked"
+  let nunv := (c.frames.filter fun f => f.1 == (Consts.nodata : Float)).length
+  pure { corr, oracle := orc, nontriv := c.beta != 0.0 && ncoef > 2 && nunv > 0,
+         cls := s!"mixed:{if nunv == c.frames.length then "allU" else if nunv == 0 then "allV" else "UV"}:lpf{if c.nlpf == 0 then "0" else "n"}:b{if c.beta == 0.0 then "0" else "x"}",
+         bitsOk := bo, bitsAll := ba }
+
 /-! ### C16 (stage level) -/
 def runC16 : P Verdict := do
   let c ← parseCase
@@ -443,6 +477,7 @@ def run : P Verdict := do
   | "C07" => runC07
   | "C13" => runC13
   | "C14" => runC14
+  | "C14m" => runC14m
   | "C16" => runC16
   | _ => throw s!"unknown voc mode {mode}"
 
